@@ -102,7 +102,9 @@ mutual
       cases v with
       | struct vs => exact hasTypeFieldsE_toE fs vs
       | _ => exact Iff.rfl
-    | .named _ _, _ => by simp only [GoType.toE, HasTypeE, HasType]
+    | .named _ u, v => by
+      simp only [GoType.toE, HasTypeE, HasType]
+      exact hasTypeE_toE u v
     | .ref _, _ => by simp only [GoType.toE, HasTypeE, HasType]
   theorem hasTypeFieldsE_toE : ∀ (fs : List (String × String × GoType)) (vs : List GoValue),
       HasTypeFieldsE (fieldsToE fs) vs ↔ HasTypeFields fs vs
